@@ -113,12 +113,12 @@ struct Outcome {
 fn build(scn: Scn, n: usize, pulled: Arc<AtomicUsize>, panic_at: Option<usize>) -> Box<dyn Iterator<Item = usize> + Send> {
     let up = Up { n, i: 0, pulled, exact: scn.exact };
     let f: Pipeline<usize, usize> = Arc::new(move |x: usize| {
-        if Some(x) == panic_at {
-            panic!("processing function fails on item {x}");
-        }
         if scn.work {
             // an always-enabled point that changes nothing in the mirror (a lock nobody ever holds)
             text_utils::verif::point(text_utils::verif::Event::Lock { obj: text_utils::verif::Obj::CountLock });
+        }
+        if Some(x) == panic_at {
+            panic!("processing function fails on item {x}");
         }
         10 * x + 1
     });
@@ -293,7 +293,7 @@ fn units(run: &Run) -> Vec<Unit> {
     // explicit-state search, consumer idles before the drop
     for k in 0..=kmax {
         for w in 1..=3usize {
-            if q && w == 3 && k > 1 {
+            if q && w == 3 && k > 0 {
                 continue;
             }
             add(Kind::Pipe, w, 0, k, true, None);
@@ -565,6 +565,14 @@ fn main() {
                 }
             }
         }
+        // processing takes time: the panic comes after a scheduling point inside the processing
+        // function (other workers can reach the end of the input first)
+        for p in if run.quick() { 2..=2usize } else { 0..=2usize } {
+            v.push((Scn { kind: Kind::Pipe, w: 2, b: 0, k: 0, idle: true, exact: false, work: true }, 3usize, p, 0usize, 1usize));
+        }
+        // three workers, four items, the third one panics: one worker can hold the last item and wait
+        // for its turn while another has already seen the end of the input
+        v.push((Scn { kind: Kind::Pipe, w: 3, b: 0, k: 0, idle: true, exact: false, work: true }, 4usize, 2usize, 0usize, 1usize));
         if !run.quick() {
             for p in 0..=2usize {
                 v.push((Scn { kind: Kind::Pipe, w: 3, b: 0, k: 0, idle: true, exact: false, work: false }, 3usize, p, 0, 1));
@@ -601,7 +609,11 @@ fn main() {
         let mut results = vec![];
         let mut failed = false;
         let mut info = vec![];
-        for n in [l, 2 * l, 1_000_000_000usize].into_iter().filter(|n| !scn.exact || *n < 1_000_000_000) {
+        // (quick: the scenarios with a scheduling point inside the processing function run for the shortest
+        // upstream only -- their subject is what happens around the drop, the lookahead verdict comes from
+        // the other scenarios)
+        let quick = run.quick();
+        for n in [l, 2 * l, 1_000_000_000usize].into_iter().filter(|n| (!scn.exact || *n < 1_000_000_000) && (!(quick && scn.work) || *n == l)) {
             let e = explore(&mut run, scn, n, u.bound);
             run.count_n("states", e.stats.states);
             run.count_n("transitions", e.stats.transitions);
